@@ -48,6 +48,37 @@ def run(ctx: Ctx):
     from .common import transform_pairing_table
 
     transform_pairing_table(ctx)
+    self_contained(ctx)
+
+
+_SIBLING_CONTROL = "class P:\n    def order(self):\n        return self._cube.partitions[0].order\n"
+
+
+def _sibling_reads(tree: ast.AST):
+    """Reads of the cube's partition sequence (`<x>.partitions`, `<x>.partition_sets`) - i.e. of ANOTHER partition."""
+    return [n for n in ast.walk(tree) if isinstance(n, ast.Attribute) and n.attr in ("partitions", "partition_sets") and isinstance(n.ctx, ast.Load)]
+
+
+def self_contained(ctx: Ctx):
+    """Partition k is the analysis of table k and of nothing else: no member of a partition class reads a SIBLING partition
+    (`self._cube.partitions[0]...`): whatever it takes from there (an order, a pruning decision, a base) was computed
+    from another table's data.  Positive-evidence lint over cubepart.py, with a positive control."""
+    if len(_sibling_reads(ast.parse(_SIBLING_CONTROL))) != 1:
+        raise AnalysisError("self-contained: the positive control is no longer recognised")
+    mod = ctx.repo.module("cubepart.py")
+    n, hits = 0, []
+    for ci in mod.classes.values():
+        for name, m in ci.members.items():
+            n += 1
+            for r in _sibling_reads(m.node):
+                hits.append((f"cubepart.py::{ci.name}.{name}", u(r)))
+    ctx.count("partition members scanned for sibling reads", n)
+    ctx.require_min("partition members scanned for sibling reads", 100)
+    for where, text in hits:
+        ctx.violated("self-contained", where, f"reads {text}", "a partition reads only its own table (cube, slice index, transforms)",
+                     "what is taken from a sibling partition was computed from ANOTHER table's data (its empty rows, its values): partition k is no longer the analysis of table k alone")
+    if not hits:
+        ctx.held("self-contained", "cubepart.py: every member of every partition class", f"{n} members, none reads the cube's partition sequence", "", "positive control recognised")
 
 
 def enumeration(ctx: Ctx):
